@@ -1183,3 +1183,130 @@ func TestConstructionExhaustive(t *testing.T) {
 	}
 	e.Done("NewDecimal/NewDecimalString: precision x scale over -5..45 and int extremes")
 }
+
+// ---- precision and scale are exported members that the library itself assigns after
+// construction (money: NewDecimal(0,0) then precision 20 scale 4; numeric fields take them from
+// the column format): the text has to follow them
+
+type rescaleCase struct {
+	P1, S1, P2, S2 int
+	Unscaled       string
+}
+
+func runRescale(c rescaleCase) (f *vh.Failure) {
+	defer func() {
+		if r := recover(); r != nil {
+			f = vh.Failf("C16/string-panic", "decimal(%d,%d)->(%d,%d) unscaled %s: panic: %v", c.P1, c.S1, c.P2, c.S2, c.Unscaled, r)
+		}
+	}()
+	u, _ := new(big.Int).SetString(c.Unscaled, 10)
+	d, err := asetypes.NewDecimal(c.P1, c.S1)
+	if err != nil {
+		return vh.Failf("C16/valid-construction-rejected", "NewDecimal(%d,%d): %v", c.P1, c.S1, err)
+	}
+	d.SetBytes(new(big.Int).Abs(u).Bytes())
+	if u.Sign() < 0 {
+		d.Negate()
+	}
+	first := d.String()
+	d.Precision, d.Scale = c.P2, c.S2
+	second := d.String()
+	fresh, _ := asetypes.NewDecimal(c.P2, c.S2)
+	fresh.SetBytes(new(big.Int).Abs(u).Bytes())
+	if u.Sign() < 0 {
+		fresh.Negate()
+	}
+	if want := fresh.String(); second != want {
+		return vh.Failf("C16/string-ignores-changed-scale", "unscaled %s printed as %q at (%d,%d); after assigning precision %d scale %d String() = %q, a fresh decimal(%d,%d) with the same unscaled value prints %q", c.Unscaled, first, c.P1, c.S1, c.P2, c.S2, second, c.P2, c.S2, want)
+	}
+	vh.Label("rescaled-after-string")
+	vh.NonTrivial(fmt.Sprintf("rescale|%d|%d|%d|%d|%s", c.P1, c.S1, c.P2, c.S2, c.Unscaled))
+	return nil
+}
+
+func TestStringFollowsPrecisionAndScale(t *testing.T) {
+	gen := func(rt *rapid.T) rescaleCase {
+		p1 := rapid.IntRange(1, 38).Draw(rt, "p1")
+		p2 := rapid.IntRange(1, 38).Draw(rt, "p2")
+		n := rapid.IntRange(1, minInt(p1, p2)).Draw(rt, "digits")
+		ds := make([]byte, n)
+		for i := range ds {
+			ds[i] = byte('0' + rapid.IntRange(0, 9).Draw(rt, "d"))
+		}
+		u := strings.TrimLeft(string(ds), "0")
+		if u == "" {
+			u = "0"
+		}
+		if rapid.Bool().Draw(rt, "neg") && u != "0" {
+			u = "-" + u
+		}
+		return rescaleCase{P1: p1, S1: rapid.IntRange(0, p1).Draw(rt, "s1"), P2: p2, S2: rapid.IntRange(0, p2).Draw(rt, "s2"), Unscaled: u}
+	}
+	vh.Check(t, "TestStringFollowsPrecisionAndScale", vh.N(20000, 400000), gen, runRescale)
+}
+
+func minInt(a, b int) int {
+	if a < b {
+		return a
+	}
+	return b
+}
+
+// ---- the integer part has to fit precision-scale digits, however short the numeral is
+
+type intPartCase struct {
+	P, S    int
+	Numeral string
+}
+
+func runIntPart(c intPartCase) (f *vh.Failure) {
+	defer func() {
+		if r := recover(); r != nil {
+			f = vh.Failf("C16/setstring-panic", "decimal(%d,%d) SetString(%q): panic: %v", c.P, c.S, c.Numeral, r)
+		}
+	}()
+	d, err := asetypes.NewDecimalString(c.P, c.S, c.Numeral)
+	if err == nil {
+		return vh.Failf("C16/too-many-digits-accepted", "decimal(%d,%d): %q has more than %d integer digits, NewDecimalString accepted it and holds %q", c.P, c.S, c.Numeral, c.P-c.S, d.String())
+	}
+	vh.Label("integer-part-too-wide")
+	vh.NonTrivial(fmt.Sprintf("intpart|%d|%d|%s", c.P, c.S, c.Numeral))
+	return nil
+}
+
+func TestIntegerPartTooWide(t *testing.T) {
+	e := vh.NewEnum(t, "TestIntegerPartTooWide", runIntPart)
+	if e.Skip() {
+		return
+	}
+	n := 0
+	for p := 1; p <= 38; p++ {
+		for s := 1; s <= p; s++ {
+			// p-s+1 integer digits: one too many; with 0..s fractional digits
+			intPart := "1" + strings.Repeat("0", p-s)
+			for frac := 0; frac <= s; frac += maxInt(1, s/3) {
+				n++
+				if !vh.Mine(n) {
+					continue
+				}
+				num := intPart
+				if frac > 0 {
+					num += "." + strings.Repeat("5", frac)
+				}
+				for _, sign := range []string{"", "-"} {
+					if !e.Do(intPartCase{P: p, S: s, Numeral: sign + num}) {
+						return
+					}
+				}
+			}
+		}
+	}
+	e.Done("every (precision, scale>0) pair with an integer part one digit too wide and 0..scale fractional digits, both signs")
+}
+
+func maxInt(a, b int) int {
+	if a > b {
+		return a
+	}
+	return b
+}
